@@ -191,6 +191,9 @@ func execOp(line string) string {
 			ps := getPackets(NewR(args))
 			b, err := rtcp.Marshal(ps)
 			if err != nil {
+				if len(b) != 0 {
+					return fmt.Sprintf("err-with-bytes %d", len(b))
+				}
 				return "err"
 			}
 			return okHex(b)
@@ -217,6 +220,9 @@ func execOp(line string) string {
 			c := rtcp.CompoundPacket(getPackets(NewR(args)))
 			b, err := c.Marshal()
 			if err != nil {
+				if len(b) != 0 {
+					return fmt.Sprintf("err-with-bytes %d", len(b))
+				}
 				return "err"
 			}
 			return okHex(b)
